@@ -21,7 +21,16 @@ class MarkerLookup(LookupError):
 EXC_TYPES = dict(ValueError=ValueError, KeyError=KeyError, TypeError=TypeError, AssertionError=AssertionError,
                  RuntimeError=RuntimeError, MarkerLookup=MarkerLookup, MarkerBoom=MarkerBoom,
                  ZeroDivisionError=ZeroDivisionError, Exception=Exception, AttributeError=AttributeError,
-                 StopIteration=StopIteration, OSError=OSError, NotImplementedError=NotImplementedError)
+                 StopIteration=StopIteration, OSError=OSError, NotImplementedError=NotImplementedError,
+                 # the library's own exception types that are NOT protocol errors, raised by a method body
+                 DeserializationError=exc.DeserializationError, IdentityError=exc.IdentityError, BaseError=exc.BaseError,
+                 LookupError=LookupError, UnicodeDecodeError=UnicodeError, RecursionError=RecursionError)
+
+
+def _late_exc_types():
+    from pjrpc.server.validators import ValidationError
+    EXC_TYPES['ValidationError'] = ValidationError
+
 
 # registered error subclasses with private codes (defined once per process)
 _REGISTERED = {}
@@ -89,6 +98,8 @@ def build_function(name, beh, log, is_async=False, pause=True):
         if kind == 'perr':
             raise make_error(beh)
         if kind == 'boom':
+            if beh['exc'] not in EXC_TYPES:
+                _late_exc_types()
             raise EXC_TYPES[beh['exc']]('%s %s' % (MARK, beh['exc']))
         raise AssertionError(kind)
 
@@ -97,6 +108,14 @@ def build_function(name, beh, log, is_async=False, pause=True):
     exec(src, ns)
     f = ns[name.replace('.', '_')]
     f.__name__ = name.replace('.', '_')
+    if is_async == 'wrapped':
+        # a plain function (not a coroutine function) that RETURNS a coroutine: e.g. an async method behind an ordinary decorator
+        import functools
+        co = f
+
+        @functools.wraps(co)
+        def f(*args, **kwargs):
+            return co(*args, **kwargs)
     return f
 
 
